@@ -1096,7 +1096,7 @@ def extra_C19(eng, cases):
             continue
         b = eng.iblocks.get(c.id, [])
         init = [l for l in b if l.startswith("r bytes ")]
-        vid = [l for l in c.lines if l.startswith("b video") or l.startswith("fc ")]
+        vid = [l for l in c.lines if l.startswith("b video") or l.startswith("b setvideo") or l.startswith("fc ")][-1:]
         if not init or not vid:
             continue
         w = vid[0].split(" ")
@@ -1117,21 +1117,24 @@ def cfg_of(case):
 
 
 def builder_words(case, key):
+    """the LAST matching builder call (a later configuration call overrides an earlier one)"""
+    found = None
     for l in case.lines:
         w = l.split(" ")
         if w[0] == "b" and w[1] in key:
-            return w
-    return None
+            found = w
+    return found
 
 
 def frag_dims_big(c):
-    for l in c.lines:
+    r = False
+    for l in c.lines:            # the last configuration call wins
         w = l.split(" ")
         if w[0] == "b" and w[1] in ("video", "setvideo"):
-            return int(w[3], 16) > 65535 or int(w[4], 16) > 65535
+            r = int(w[3], 16) > 65535 or int(w[4], 16) > 65535
         if w[0] == "fc":
-            return int(w[1], 16) > 65535 or int(w[2], 16) > 65535
-    return False
+            r = int(w[1], 16) > 65535 or int(w[2], 16) > 65535
+    return r
 
 
 def kc_c19(clause, pred=lambda c: True):
@@ -1919,3 +1922,5 @@ for _p in ("C04", "C05"):
 PROPS["C07"]["fams"] = PROPS["C07"]["fams"] + [("fam_reject_matrix", 120, 3000)]
 for _p in ("C18", "C19", "C07"):
     PROPS[_p]["fams"] = PROPS[_p]["fams"] + [("fam_builder_scripts", 100, 3000)]
+for _p in ("C05", "C04"):
+    PROPS[_p]["fams"] = PROPS[_p]["fams"] + [("fam_encode_paths", 100, 3000)]
